@@ -102,6 +102,13 @@ CHECKS['C14'] = ('exploration',
    'All byte strings are sampled, not exhausted; go test -fuzz is not wired in (structured + mutation generators hit every seeded mutant); a zero-CPU deadlock would only show as a watchdog expiry (inconclusive).',
    'DESIGN.md 2/C14')
 
+
+CHECKS['C19'] = ('exploration',
+   'offline mesh checker (weld + directed-edge balance + signed volume + vertex-to-surface distance + box containment + run-vs-run identity) over triangles received on the channel passed to DualContouringV1/V2.Render',
+   'Exact shapes wrapped with a bounding box enlarged by 10-30% (cubic and elongated sampled volumes) are rendered by both dual-contouring renderers without simplification (V1 LockVertices on; V2 defaults with clamping) at resolutions 8..28 quick / 8..56 thorough; each mesh must be closed after welding, enclose positive volume, keep every vertex within one cell diagonal of the surface and inside the sampled box, and be identical on a second run.',
+   'Volume accuracy is reported, only its sign is judged (the statement asks for positive volume); warnings the renderers log are discarded.',
+   'DESIGN.md 2/C19')
+
 NOT_YET = 'monitor not built yet in this round (planned in DESIGN.md section 2); not claimed until its check exists'
 NA = {}
 
